@@ -21,17 +21,24 @@ THEOREMS = [
     "Mpc.C13_parse_compound_wires",
     "Mpc.C13_parse_member_independent",
     "Mpc.C13_set_compound_wires_partial",
+    "Mpc.C13_set_member_independent_partial",
+    "Mpc.C13_compound_wire_bits_parse_eq_set_partial",
+    "Mpc.C13_member_agreement_int",
+    "Mpc.C13_member_agreement_bool",
     "Mpc.C13_set_member_disturbed_witness",
     # sizes
     "Mpc.C13_bitLen_spec",
     "Mpc.C13_sizes_agree_partial",
     "Mpc.C13_sizes_disagree_witness",
     "Mpc.C13_sizes_negative_witness",
+    "Mpc.C13_inferred_size_uint",
+    "Mpc.C13_inferred_size_slice",
     # decoding
     "Mpc.C13_result_inverts_uint",
     "Mpc.C13_result_inverts_int",
     "Mpc.C13_result_inverts_bool",
     "Mpc.C13_result_inverts_array",
+    "Mpc.C13_result_inverts_array_int",
     "Mpc.C13_result_pure_partial",
     "Mpc.C13_result_not_pure_witness",
     "Mpc.C13_result_not_repeatable_witness",
@@ -74,10 +81,10 @@ def run(ctx):
     ctx.build_drv()
     facts(ctx)
     if ctx.tier == "quick":
-        plan = [("all", 6000, ctx.seed)]
+        plan = [("all", 30000, ctx.seed)]
     else:
-        plan = [("all", 60000, ctx.seed), ("all", 60000, ctx.seed + 1000), ("enc", 40000, ctx.seed + 2000),
-                ("result", 30000, ctx.seed + 3000), ("sizes", 20000, ctx.seed + 4000), ("misc", 20000, ctx.seed + 5000)]
+        plan = [("all", 300000, ctx.seed), ("all", 300000, ctx.seed + 1000), ("enc", 200000, ctx.seed + 2000),
+                ("result", 150000, ctx.seed + 3000), ("sizes", 60000, ctx.seed + 4000), ("misc", 100000, ctx.seed + 5000)]
     if ctx.build_hx():
         for mode, n, s in plan:
             ops, out, meta = ctx.run_hx(mode, n, seed=s)
@@ -96,7 +103,8 @@ def run(ctx):
         need = ["array_len0", "array_short_literal", "compound", "int_wide_true_neg_true", "int_wide_false_neg_true",
                 "spell_hex", "spell_dec", "spell_bin", "arrspell_hex", "arrspell_dec", "independence_parse",
                 "independence_set", "result_array_len0", "result_string", "op_flow", "op_split", "op_inst", "op_ty",
-                "any_parse_err_panic", "any_set_err_toomany", "sizes_class_two-or-three", "sizes_class_negative"]
+                "any_parse_err_panic", "any_set_err_toomany", "sizes_class_two-or-three", "sizes_class_negative",
+                "result_nil_outputs", "corpus_witnesses", "corpus_string_bytes"]
         missing = [k for k in need if not c.get(k)]
         ctx.oblige("generator reached 0-length arrays, short literals, compounds, wide negative ints, hex/decimal/"
                    "binary spellings, error and panic paths", not missing, "not reached: %s" % missing)
